@@ -88,7 +88,7 @@ class Check(PropertyCheck):
             if (rc != 0 or out != c.plain) and "spurious-candidates" not in seen:
                 seen.add("spurious-candidates")
                 viols.append(Violation("spurious-candidates-change-result",
-                                       "valid input (%d small streams whose symbol bitmaps contain the block magic), `lbzip2 -dc -n%d` (H1 seed %s): "
+                                       "valid input (%d bytes: small streams whose symbol bitmaps contain the block magic), `lbzip2 -dc -n%d` (H1 seed %s): "
                                        "rc=%s, output %s the sequential decoding%s" % (
                                            len(c.data), n, sd, rc, "equals" if out == c.plain else "differs from",
                                            (", stderr: " + (err.decode("latin-1") if isinstance(err, bytes) else str(err))[-200:]) if rc else ""),
